@@ -112,9 +112,23 @@ class Monitor:
         else:
             self.writes_unpublished += 1
 
+    @staticmethod
+    def _snap(cache):
+        """Shallow copy of a _cache dict plus a frozen image of every MUTABLE value (a memoised list or multidict that is
+        extended in place is the same object afterwards: identity and == would both say 'unchanged')."""
+        d = dict(cache)
+        frozen = {}
+        for k, v in d.items():
+            if isinstance(v, list):
+                frozen[k] = repr(v)
+            elif hasattr(v, "items") and hasattr(v, "getall"):
+                frozen[k] = repr(list(v.items()))
+        d["__frozen__"] = frozen
+        return d
+
     def publish(self, obj, step):
         if id(obj) not in self.published or self.published[id(obj)][0] is not obj:
-            self.published[id(obj)] = (obj, slots(obj), step, dict(obj._cache))
+            self.published[id(obj)] = (obj, slots(obj), step, self._snap(obj._cache))
 
     def check_all(self, case_fn):
         """Every published URL still has its birth state; caches only grew."""
@@ -124,7 +138,16 @@ class Monitor:
                 self.ctx.fail("url_state_changed", case_fn(), f"URL born at step {step} with {birth!r} now holds {now!r}")
                 self.published[oid] = (obj, now, step, csnap)
             cache = obj._cache
+            frozen = csnap.get("__frozen__", {})
             for k, v in csnap.items():
+                if k == "__frozen__":
+                    continue
+                if k in frozen and k in cache:
+                    w = cache[k]
+                    now_f = repr(w) if isinstance(w, list) else repr(list(w.items())) if hasattr(w, "getall") else None
+                    if now_f != frozen[k]:
+                        self.ctx.fail("cache_value_mutated", case_fn(), f"_cache[{k!r}] of {birth!r} was mutated in place: {frozen[k][:120]} -> {str(now_f)[:120]}")
+                        break
                 if k not in cache:
                     self.ctx.fail("cache_entry_vanished", case_fn(), f"_cache[{k!r}] of {birth!r} disappeared")
                     break
@@ -132,7 +155,7 @@ class Monitor:
                 if not (w is v or w == v):
                     self.ctx.fail("cache_entry_changed", case_fn(), f"_cache[{k!r}] of {birth!r}: {v!r} -> {w!r}")
                     break
-            self.published[oid] = (obj, birth, step, dict(cache))
+            self.published[oid] = (obj, birth, step, self._snap(cache))
         if self.writes_published:
             w = self.writes_published.pop()
             self.ctx.fail("slot_write_after_publication", case_fn(), f"slot {w[0]} of published URL {w[2]!r} written with {w[1]}")
@@ -299,6 +322,8 @@ class Program:
                 args = [r.choice(PATHS)]
             elif m in ("with_query", "extend_query", "update_query"):
                 args = [r.choice([None, "", "a=1", "a=2&b", {"t": "dict", "v": [["a", "x y"]]}, {"t": "dict", "v": []}, {"t": "list", "v": [{"t": "tuple", "v": ["b", "1"]}]},
+                                  {"t": "list", "v": [{"t": "tuple", "v": ["c", "3"]}]}, {"t": "list", "v": [{"t": "tuple", "v": ["d", "4"]}, {"t": "tuple", "v": ["e", "5"]}]},
+                                  {"t": "tuple", "v": [{"t": "tuple", "v": ["f", "6"]}]}, {"t": "list", "v": [{"t": "tuple", "v": ["bad", None]}]},
                                   {"t": "mdict", "v": [["a", "1"], ["a", "2"]]}, {"t": "dict", "v": [["k", {"t": "list", "v": ["1", "2"]}]]}] + NUMERIC_QUERIES)]
             elif m == "without_query_params":
                 args = [r.choice(["a", "b", "zz"])]
